@@ -5,7 +5,8 @@
    below holds for ALL oracles. *)
 From Coq Require Import String List ZArith Bool.
 Require Import Blots.Num Blots.gen.Builtins Blots.Ast Blots.gen.ParensTable Blots.Formatter
-  Blots.proofs.Comments Blots.proofs.Scan Blots.proofs.ScanFmt Blots.proofs.DriverText.
+  Blots.proofs.Comments Blots.proofs.Scan Blots.proofs.ScanFmt Blots.proofs.DriverText
+  Blots.proofs.NestedFix.
 Import ListNotations.
 Open Scope string_scope.
 Open Scope list_scope.
@@ -40,7 +41,7 @@ Print Assumptions C09_doc_comments_preserved.
 
 (* the hypotheses are satisfiable by a program with comments in every slot:
      x = [ // a \n 1, // b \n {k: do { // c \n q = 1 // d \n // e \n return q }, // f \n }, // g \n ]   *)
-Definition ex_O : oracles := oracles_impl op_info_table [(0x3ff0000000000000, "1")]%Z.
+Definition ex_O : oracles := oracles_impl false op_info_table [(0x3ff0000000000000, "1")]%Z.
 Definition ex_commented : expr :=
   EAssign "x" (EList [Cm ["// a"] (ENum (nb 0x3ff0000000000000)) None;
                       Cm ["// b"] (ERec [Cm [] (REntry (KStatic "k")
@@ -54,12 +55,16 @@ Example C09_hypotheses_satisfiable :
 Proof. vm_compute. repeat split. Qed.
 
 (* REFUTED without the exclusion (known finding C09-opaque-nested): a comment inside a list
-   that is the operand of a unary operator is dropped for every width and every oracle. *)
+   that is the operand of a unary operator is dropped for every width and every oracle, by
+   formatter.rs as it is (o_keep_nested_comments = false). *)
 Lemma C09_opaque_comment_refuted :
-  forall O w i,
+  forall O w i, o_keep_nested_comments O = false ->
   let e := EUn Negate (EList [Cm ["// c"] (EId "a") None]) in
   wf_ast e = true /\ expr_comments e = ["// c"] /\ doc_comments (fmtd O w e i) = [].
-Proof. intros. repeat split. subst e. cbn. destruct (fits_single _ _ _ _); reflexivity. Qed.
+Proof.
+  intros O w i Hk. repeat split. cbn. rewrite Hk. cbn [andb negb].
+  rewrite andb_true_r. destruct (fits_single _ _ _ _); reflexivity.
+Qed.
 
 (* driver_comments_preserved, library driver (blots-wasm format_blots; mirrored in the harness) *)
 Theorem C09_lib_driver_accounts :
@@ -180,3 +185,37 @@ Example C09_driver_hypotheses_satisfiable :
 Proof.
   repeat constructor; try reflexivity; vm_compute; repeat constructor.
 Qed.
+
+(* ---- formatter.rs with fixes/C09-nested-comments.diff (o_keep_nested_comments O = true):
+   an expression that contains a comment is never printed through expr_to_source ... *)
+Theorem C09_fixed_opaque_exprs_comment_free :
+  forall O, o_keep_nested_comments O = true ->
+  forall w e i, Forall (fun p => match p with Opaque x _ => cfree x = true | _ => True end) (fmtd O w e i).
+Proof. exact fixed_opaque_exprs_comment_free. Qed.
+Check C09_fixed_opaque_exprs_comment_free :
+  forall O, o_keep_nested_comments O = true ->
+  forall w e i, Forall (fun p => match p with Opaque x _ => cfree x = true | _ => True end) (fmtd O w e i).
+Print Assumptions C09_fixed_opaque_exprs_comment_free.
+
+(* ... so the document shows every comment of the AST: the exclusion of C09_doc_comments_preserved
+   (known finding C09-opaque-nested) is gone.  The only remaining proviso is technical: no
+   via/into/where lambda operand had to be re-assembled from lines() (that happens only for a
+   text with "\r\n" inside, and keeps the comments in the text). *)
+Theorem C09_fixed_doc_comments_preserved :
+  forall O, o_keep_nested_comments O = true ->
+  forall w e i, wf_ast e = true -> doc_relined (fmtd O w e i) = [] ->
+  doc_comments (fmtd O w e i) = expr_comments e.
+Proof. exact fixed_comments_preserved. Qed.
+Check C09_fixed_doc_comments_preserved :
+  forall O, o_keep_nested_comments O = true ->
+  forall w e i, wf_ast e = true -> doc_relined (fmtd O w e i) = [] ->
+  doc_comments (fmtd O w e i) = expr_comments e.
+Print Assumptions C09_fixed_doc_comments_preserved.
+
+(* the witness of C09_opaque_comment_refuted under the repaired formatter: `-[ // c` newline `a ]` *)
+Example C09_fixed_witness :
+  let O := oracles_impl true op_info_table [] in
+  let e := EUn Negate (EList [Cm ["// c"] (EId "a") None]) in
+  doc_comments (fmtd O 80 e 0) = ["// c"] /\
+  render (fmtd O 80 e 0) = ("-[" ++ nl ++ "  // c" ++ nl ++ "  a," ++ nl ++ "]")%string.
+Proof. vm_compute. split; reflexivity. Qed.
